@@ -70,6 +70,7 @@ func (o *Operations) Delete(name string) error {
 		}
 
 		hdr.Size = 0 // Don't try to seek after the record
+		hdr.Format = tar.FormatPAX
 		hdr.PAXRecords[records.STFSRecordVersion] = records.STFSRecordVersion1
 		hdr.PAXRecords[records.STFSRecordAction] = records.STFSRecordActionDelete
 
